@@ -192,7 +192,7 @@ pub fn gen_evidence(r: &mut Rng) -> EvidenceSet {
             7 => Ev::DynArray { element: other(r) },
             8 => Ev::FixedArray {
                 element: other(r),
-                length:  *r.pick(&[3u64, 5]),
+                length:  *r.pick(&[3u64, 5, 5, evidence::WIDE_LENGTH]),
             },
             9 => {
                 if r.chance(1, 2) {
@@ -380,7 +380,7 @@ pub fn postconditions(ev: &EvidenceSet, o: &UnifyOutcome) -> Option<(String, Val
                 let re = evidence::tv_index(*element);
                 for e in evs {
                     if let Ev::FixedArray { element, length: l } = e {
-                        if ethnum::U256::from(*l) == *length && !o.same_class(*element, re) {
+                        if evidence::real_length(*l) == *length && !o.same_class(*element, re) {
                             return Some((
                                 format!("components-not-unified:FixedArray[{l}]"),
                                 json!({"class_root": cls, "resolved": "FixedArray", "evidence_element": element, "resolved_element": re}),
@@ -390,6 +390,75 @@ pub fn postconditions(ev: &EvidenceSet, o: &UnifyOutcome) -> Option<(String, Val
                 }
             }
             _ => {}
+        }
+    }
+    // 4b. The same clause seen from the evidence rather than from the
+    //     resolved type: a class whose whole evidence is one constructor (all
+    //     mappings, all dynamic arrays, all fixed arrays of one length; `Any`
+    //     and equalities aside) is not contradictory, so its components must
+    //     have been unified whatever the class resolved to. Classes that a
+    //     packed encoding refers to are left out: merging packed encodings
+    //     pushes further word evidence onto their span variables, so the input
+    //     judgements are not the whole evidence there.
+    let mut packed_targets: BTreeSet<usize> = BTreeSet::new();
+    for (_, e) in &ev.judgements {
+        if let Ev::Packed { spans, .. } = e {
+            for (v, _, _) in spans {
+                packed_targets.insert(o.class[*v]);
+            }
+        }
+    }
+    for (cls, evs) in &by_class {
+        if packed_targets.contains(cls) {
+            continue;
+        }
+        let solid: Vec<&&Ev> = evs.iter().filter(|e| !matches!(e, Ev::Equal { .. } | Ev::Any)).collect();
+        if solid.len() < 2 {
+            continue;
+        }
+        let components: Option<Vec<Vec<usize>>> = match solid[0] {
+            Ev::Mapping { .. } => solid
+                .iter()
+                .map(|e| match e {
+                    Ev::Mapping { key, value } => Some(vec![*key, *value]),
+                    _ => None,
+                })
+                .collect(),
+            Ev::DynArray { .. } => solid
+                .iter()
+                .map(|e| match e {
+                    Ev::DynArray { element } => Some(vec![*element]),
+                    _ => None,
+                })
+                .collect(),
+            Ev::FixedArray { length: first, .. } => solid
+                .iter()
+                .map(|e| match e {
+                    Ev::FixedArray { element, length } if length == first => Some(vec![*element]),
+                    _ => None,
+                })
+                .collect(),
+            _ => None,
+        };
+        let Some(components) = components else {
+            continue;
+        };
+        for other in &components[1..] {
+            for (a, b) in components[0].iter().zip(other.iter()) {
+                if !o.same_class(*a, *b) {
+                    let kind = match solid[0] {
+                        Ev::Mapping { .. } => "Mapping".to_string(),
+                        Ev::DynArray { .. } => "DynArray".to_string(),
+                        Ev::FixedArray { length, .. } if *length >= evidence::WIDE_LENGTH_BASE => "FixedArray[beyond 64 bits]".to_string(),
+                        Ev::FixedArray { length, .. } => format!("FixedArray[{length}]"),
+                        _ => unreachable!(),
+                    };
+                    return Some((
+                        format!("components-not-unified:all-evidence-{kind}"),
+                        json!({"class_root": cls, "components_a": components[0], "components_b": other, "resolved": o.data[*cls].as_ref().and_then(|d| d.first()).map(evidence::te_kind)}),
+                    ));
+                }
+            }
         }
     }
     None
@@ -463,7 +532,7 @@ impl Check for C14Check {
         let has_packed = ev.judgements.iter().any(|(_, e)| matches!(e, Ev::Packed { .. }));
         res.probe(if has_packed { "sets_with_packed" } else { "sets_without_packed" });
         for (six, sched) in schedules(seed).into_iter().enumerate() {
-            let mode = Delivery::for_schedule(six);
+            let mode = Delivery::for_schedule(six, seed);
             let uopts = UnifyOpts {
                 mode,
                 ..UnifyOpts::default()
